@@ -90,10 +90,12 @@ PROPS = {
         "level": "fault_enumeration",
         "technique": "exhaustive crash-point enumeration of real processes under ptrace: SIGKILL before every state-changing system call of every lifecycle scenario, then survivor detection/cleanup/usability and leftover scan",
         "legs": [{"ws": "seq", "bin": "ptx", "args": ["--prop", "C04"]}],
+        # the thorough tier's atomic-operation kill points need the victim built against the drop-in
+        "build_only": [{"ws": "mc", "bin": "crash_child_mc"}],
         "rule": "see coverage.legs[0].rule",
         "assumptions": [
             "a crash is a SIGKILL delivered at the entry of a visible system call (open/creat/mkdir/rmdir/unlink/rename/link/chmod/fchmod/ftruncate/fcntl-lock/flock/mmap-shared/close/write/socket calls); the kernel's own atomicity of those calls is trusted",
-            "crashes between two shared-memory writes that are not separated by a system call are not enumerated by this leg",
+            "quick tier: system-call kill points only; the thorough tier adds a kill point before EVERY atomic operation of the victim (built against the atomics drop-in), i.e. crashes between two shared-memory writes",
             "victim and survivor run as an unprivileged user (root bypasses the permission bits iceoryx2's creation protocol relies on)",
             "one victim, one survivor, ipc service variant, the four messaging patterns with both port roles; creation_timeout configured to 500 ms",
         ],
@@ -102,7 +104,7 @@ PROPS = {
                       "before EVERY state-changing system call of node creation, service create/open, port creation, traffic and orderly shutdown (all "
                       "points, not a sample); after each kill a surviving process must list the node as dead or absent, clean it up successfully, keep "
                       "working with a new peer (or re-create the service), and nothing of the victim may remain in the domain's directories or /dev/shm.",
-        "level_note": "trusted: ptrace stepping, the visible-call filter, kernel atomicity of single system calls; not covered: crashes between plain shared-memory writes, a second crash during cleanup, more than two processes",
+        "level_note": "trusted: ptrace stepping, the visible-call filter, kernel atomicity of single system calls; not covered: crashes between plain (non-atomic) shared-memory writes, a second crash during cleanup of the same node (C07's cleaner leg kills a cleaner), more than two processes",
     },
     "C07": {
         "level": "fault_enumeration",
